@@ -67,41 +67,19 @@ theorem queries_match_paths (cfg : Sites) (sch : Schema) (huniq : sch.uniqueIds 
     rw [Sel_eq_SelN hr.ne_nil]
     exact walk_rep q d m _ b hr hnts (Or.inl hq) hw
 
-/-- the hypotheses of `queries_match_paths` are satisfiable: `$.a` and `$.l[1,3]` on
-`struct S {-1: string neg, 1: string a, 2: list<string> l, 3: map<string,S> m, 4: S s}` -/
-def wS : Schema :=
-  { structs := [([83], [⟨-1, [110, 101, 103], .named [115, 116, 114, 105, 110, 103]⟩,
-                        ⟨1, [97], .named [115, 116, 114, 105, 110, 103]⟩,
-                        ⟨2, [108], .list (.named [115, 116, 114, 105, 110, 103])⟩,
-                        ⟨3, [109], .map (.named [115, 116, 114, 105, 110, 103]) (.named [83])⟩,
-                        ⟨4, [115], .named [83]⟩])],
-    typedefs := [], enums := [] }
-def rS : Ty := .named [83]
-
-def Res.get? {α} : Res α → Option α
-  | .ok a => some a
-  | _ => none
-def Res.panicSite {α} : Res α → Option Site
-  | .panic s => some s
-  | _ => none
-def Res.isCrash {α} : Res α → Bool
-  | .crash => true
-  | _ => false
-def Res.isErr {α} : Res α → Bool
-  | .err _ => true
-  | _ => false
-
+/-- the hypotheses of `queries_match_paths` are satisfiable: `$.a` and `$.l[1,3]` on the witness schema
+`wS` = `struct S {-1: string neg, 1: string a, 2: list<string> l, 3: map<string,S> m, 4: S s}` -/
 example : wS.uniqueIds = true ∧
     ((meaning Sites.asFound wS rS [[36, 46, 97], [36, 46, 108, 91, 49, 44, 51, 93]]).get?.map
       fun ts => (expandAll ts, NoStarConflict (expandAll ts), NoTerminalStar (expandAll ts))) =
-      some ([[.field 1], [.field 2, .idx 1], [.field 2, .idx 3]], true, true) := by decide
+      some (([[.field 1], [.field 2, .idx 1], [.field 2, .idx 3]] : List APath), true, true) := by decide
 
 /-- black list, final '*': the full statement is FALSE on the code (and on the model).
 `$.l[*]` in black-list mode: `Field(2)` then `Int(3)` answers true, the path set rejects it. -/
 example :
     ((newFieldMask Sites.asFound wS rS true [[36, 46, 108, 91, 42, 93]]).get?.map
-      fun m => (walk Sites.asFound (.some m) [.field 2, .int 3]).get?) = some (some true) ∧
-    Sel true [[.field 2, .any]] [.field 2, .int 3] = false := by decide
+      fun m => (walk Sites.asFound (.some m) ([.field 2, .int 3] : List QStep)).get?) = some (some true) ∧
+    Sel true ([[.field 2, .any]] : List APath) ([.field 2, .int 3] : List QStep) = false := by decide
 
 /-! ## order and grouping -/
 
@@ -144,7 +122,7 @@ theorem order_independent (cfg : Sites) (sch : Schema) (huniq : sch.uniqueIds = 
 example :
     ((meaning Sites.asFound wS rS [[36, 46, 108, 91, 49, 44, 51, 93]]).get?.map expandAll,
      (meaning Sites.asFound wS rS [[36, 46, 108, 91, 51, 93], [36, 46, 108, 91, 49, 93]]).get?.map expandAll) =
-    (some [[.field 2, .idx 1], [.field 2, .idx 3]], some [[.field 2, .idx 3], [.field 2, .idx 1]]) := by decide
+    (some ([[.field 2, .idx 1], [.field 2, .idx 3]] : List APath), some ([[.field 2, .idx 3], [.field 2, .idx 1]] : List APath)) := by decide
 
 /-! ## errors -/
 
@@ -193,37 +171,6 @@ example : (newFieldMask Sites.asFound wS rS false [[36, 46, 108, 91, 44, 93]]).g
        (∀ m, getPath Sites.asFound sch m desc gp ≠ .panic s) ∧ unmarshal Sites.asFound doc ≠ .panic s
 -/
 
-/-- decidable hypotheses of `no_panic_partial` -/
-def idsNonneg (sch : Schema) : Bool := sch.structs.all fun st => st.2.all fun f => decide (0 ≤ f.id)
-
-/-- no suffix of the path makes the tokenizer panic (unbalanced quote, backslash at the end of a quoted
-string, integer beyond int64) and no integer literal exceeds int32 -/
-def tokSafe (cfg : Sites) (p : Bytes) : Bool :=
-  p.tails.all fun r =>
-    match next cfg r with
-    | .panic _ => false
-    | .ok (.litInt n, _) => !cfg.int32 || decide (n ≤ 2147483647)
-    | _ => true
-
-theorem cause_absurd {cfg : Sites} {sch : Schema} {p : Bytes} {s : Site}
-    (hids : cfg.headNeg = true → idsNonneg sch = true) (htok : tokSafe cfg p = true) (h : Cause cfg sch p s) : False := by
-  unfold tokSafe at htok
-  rw [List.all_eq_true] at htok
-  rcases h with ⟨r, hr, h⟩ | ⟨_, hc, r, n, r', hr, h, hn⟩ | ⟨_, hc, st, hst, f, hf, hneg⟩
-  · have := htok r ((List.mem_tails _ _).mpr hr)
-    simp [h] at this
-  · have := htok r ((List.mem_tails _ _).mpr hr)
-    simp [h, hc] at this
-    omega
-  · have := hids hc
-    unfold idsNonneg at this
-    rw [List.all_eq_true] at this
-    have := this st hst
-    rw [List.all_eq_true] at this
-    have := this f hf
-    simp at this
-    omega
-
 /-- **no_panic_partial.**  With the panic sites as found (any `cfg`):
 * NewFieldMask does not panic when field ids are non-negative and every path is `tokSafe`;
 * a query sequence does not panic when it holds no negative field id and `Field()` is not asked of a
@@ -267,12 +214,6 @@ theorem no_panic_repaired (sch : Schema) (s : Site) :
     obtain ⟨p, _, hc⟩ := newMask_panic paths _ h
     have := hc.enabled
     cases s <;> simp [Sites.enabled, Sites.repaired] at this
-    -- marshalNilFd is not a site of NewFieldMask
-    rcases hc with ⟨r, _, h⟩ | ⟨h, _⟩ | ⟨h, _⟩
-    · have := next_panic h
-      sorry
-    · cases h
-    · cases h
   · intro cur q h
     rcases walk_panic q cur h with ⟨_, hc, _⟩ | ⟨_, hc⟩ <;> simp [Sites.repaired] at hc
   · intro doc h
@@ -281,9 +222,57 @@ theorem no_panic_repaired (sch : Schema) (s : Site) :
   · intro m desc gp h
     have := getPath_panic h
     cases s <;> simp [Sites.enabled, Sites.repaired] at this
-    sorry
   · intro m h
     obtain ⟨hc, hs⟩ := forEachChild_panic h
     rcases hs with rfl | rfl <;> simp [Sites.enabled, Sites.repaired] at hc
+
+
+/-- the nine panic sites of the tree as found, each with a minimal input (all replayed on the real code by
+the harness, see `seeded()` in harness/cmd/c14): -/
+example :
+    -- NewFieldMask(S, "$.neg")                      head[-1]
+    (newFieldMask Sites.asFound wS rS false [[36, 46, 110, 101, 103]]).panicSite = some .headNeg ∧
+    -- NewFieldMask(S, "$.99999999999999999999")     strconv.Atoi error -> panic(err)
+    (newFieldMask Sites.asFound wS rS false [[36, 46] ++ List.replicate 20 57]).panicSite = some .atoi ∧
+    -- NewFieldMask(S, "$.3000000000")               Int32(): "integer overflow"
+    (newFieldMask Sites.asFound wS rS false [[36, 46, 51, 48, 48, 48, 48, 48, 48, 48, 48, 48]]).panicSite = some .int32 ∧
+    -- NewFieldMask(S, `$.m{"a}`)                    newPathToken(pathTypeERR): "unspported pathType"
+    (newFieldMask Sites.asFound wS rS false [[36, 46, 109, 123, 34, 97, 125]]).panicSite = some .errTok ∧
+    -- NewFieldMask(S, `$.m{"a\`)                    src[pos:len+1]
+    (newFieldMask Sites.asFound wS rS false [[36, 46, 109, 123, 34, 97, 92]]).panicSite = some .strSlice := by decide
+
+example :
+    -- m := NewFieldMask(S, "$.*"); m.PathInMask(S, "$.*")       f.GetID() on a nil field descriptor
+    ((newFieldMask Sites.asFound wS rS false [[36, 46, 42]]).get?.map
+      fun m => (getPath Sites.asFound wS (.some m) rS [36, 46, 42]).panicSite) = some (some .getPathStar) ∧
+    -- m := NewFieldMask(S, "$.l[1]"); l, _ := m.Field(2); l.Field(0)     (*fieldMap)(nil).Get
+    ((newFieldMask Sites.asFound wS rS false [[36, 46, 108, 91, 49, 93]]).get?.map
+      fun m => (walk Sites.asFound (.some m) ([.field 2, .field 0] : List QStep)).panicSite) = some (some .fieldNilFd) ∧
+    -- NewFieldMask(S, "$").ForEachChild(..)          fm.tail with fm == nil
+    ((newFieldMask Sites.asFound wS rS false [[36]]).get?.map
+      fun m => (forEachChild Sites.asFound (.some m)).panicSite) = some (some .foreachNilFd) ∧
+    -- NewFieldMask(S).ForEachChild(..)               explicit panic for typ == 0
+    ((newFieldMask Sites.asFound wS rS false []).get?.map
+      fun m => (forEachChild Sites.asFound (.some m)).panicSite) = some (some .foreachInvalid) ∧
+    -- UnmarshalJSON(`{"path":"$","type":"Struct","children":[{"path":-1,"type":"Scalar"}]}`)    head[-1]
+    (unmarshal Sites.asFound (some (.mk ⟨true, false, none, none, some [36]⟩ .struct false
+      (.cons (.mk ⟨false, false, some (-1), some (-1), none⟩ .scalar false .nil) .nil)))).panicSite = some .headNeg := by
+  decide
+
+/-! ## termination of GetPath -/
+
+/-- **getpath_terminates_partial.**  GetPath/PathInMask return when every token read at a non-empty suffix
+of the path consumes input (`progressB`, decidable).  The full statement is false: a backslash outside a
+quoted string yields an empty literal token without advancing, and the index/key loops `continue` on
+any token when the node is "all" — witness below (`$.m{*}` then PathInMask(`$.m{\`), non-termination
+observed on the real code by the harness). -/
+theorem getpath_terminates_partial (cfg : Sites) (sch : Schema) (m : MaskOpt) (desc : Ty) (path : Bytes)
+    (h : progressB cfg path = true) : getPath cfg sch m desc path ≠ .crash :=
+  getPath_total (progress_of_progressB h)
+
+example : progressB Sites.asFound [36, 46, 109, 123, 34, 97, 34, 125] = true ∧
+    progressB Sites.asFound [36, 46, 109, 123, 92] = false ∧
+    ((newFieldMask Sites.asFound wS rS false [[36, 46, 109, 123, 42, 125]]).get?.map
+      fun m => (getPath Sites.asFound wS (.some m) rS [36, 46, 109, 123, 92]).isCrash) = some true := by decide
 
 end Props.C14
